@@ -406,11 +406,10 @@ impl VarIntEncoder {
         
         // Write deltas
         for i in 1..values.len() {
-            let delta = if values[i] >= values[i-1] {
-                (values[i] - values[i-1]) << 1 // Positive delta, LSB = 0
-            } else {
-                ((values[i-1] - values[i]) << 1) | 1 // Negative delta, LSB = 1
-            };
+            // Zigzag of the wrapping difference: lossless for every pair of u64 values
+            // (a sign/magnitude shift drops the top bit once the difference needs 64 bits)
+            let diff = values[i].wrapping_sub(values[i-1]) as i64;
+            let delta = ((diff << 1) ^ (diff >> 63)) as u64;
             
             let delta_bytes = self.encode_leb128_u64(delta)?;
             result.extend_from_slice(&delta_bytes);
@@ -435,7 +434,7 @@ impl VarIntEncoder {
         
         // Write deltas using zigzag encoding
         for i in 1..values.len() {
-            let delta = values[i] - values[i-1];
+            let delta = values[i].wrapping_sub(values[i-1]);
             let delta_bytes = self.encode_zigzag_i64(delta)?;
             result.extend_from_slice(&delta_bytes);
         }
@@ -466,13 +465,8 @@ impl VarIntEncoder {
             let (encoded_delta, delta_bytes) = self.decode_leb128_u64(&data[offset..])?;
             
             let prev_value = result[result.len() - 1];
-            let next_value = if (encoded_delta & 1) == 0 {
-                // Positive delta
-                prev_value + (encoded_delta >> 1)
-            } else {
-                // Negative delta
-                prev_value - (encoded_delta >> 1)
-            };
+            let diff = ((encoded_delta >> 1) as i64) ^ (-((encoded_delta & 1) as i64));
+            let next_value = prev_value.wrapping_add(diff as u64);
             
             result.push(next_value);
             offset += delta_bytes;
@@ -502,7 +496,7 @@ impl VarIntEncoder {
         // Read deltas
         for _ in 1..count {
             let (delta, delta_bytes) = self.decode_zigzag_i64(&data[offset..])?;
-            let next_value = result[result.len() - 1] + delta;
+            let next_value = result[result.len() - 1].wrapping_add(delta);
             result.push(next_value);
             offset += delta_bytes;
         }
